@@ -8,4 +8,6 @@ CONSTANTS
   Nested = TRUE
   OptionSet <- AllOptions
   OwnLineOptions <- QuickOptions
+  AllAtomsUpTo = 1
+  DefaultFrom = 99
 INVARIANTS FSpineOK FEmit
